@@ -287,11 +287,12 @@ def _is_empty_ctor(t, depth=0, facts=None):
     return False
 
 
-@rule('TYPE-IMPLS', {
+@rule('TYPE-IMPLS', dict({
     'C20': 'replicas with the same content compare equal only if equality looks at every field; keys of hash tables (clocks, dots) need Hash to agree with Eq',
     'C19': 'round-trip equality is judged by the same PartialEq impls',
     'C02': 'the merge laws are stated up to ==',
-}, floor=16)
+}, **{p_: TYPE_PROP_WHY for ps_ in TYPE_PROPS.values() for p_ in ps_ if p_ not in ('C20', 'C19', 'C02')}), floor=16,
+    inst_filter={p_: (lambda i, p_=p_: p_ in type_props(i) or i in ('floor', 'anchor', 'internal')) for ps_ in TYPE_PROPS.values() for p_ in ps_})
 def type_impls(ctx):
     """Hand-written PartialEq / Hash / Default / Clone impls of the crate's state, op and clock types behave like the derived
     ones: eq compares every field (true iff all are equal), hash feeds every field eq compares, default builds the empty
@@ -372,3 +373,65 @@ def type_impls(ctx):
             r = versionless(interp(facts, b).ret)
             ok = r == ('param', 1) or (r[0] == 'agg' and fields is not None and all(versionless(v) == ('field', ('param', 1), k) for k, v in r[3]))
             ctx.check(ok, short + '/clone', b, 'a field-by-field copy', 'Clone::clone of %s is %s, expected a copy of every field' % (short, fmt(r, 5)))
+
+
+@rule('CMP-PROVIDED', {
+    'C10': 'the comparison operators must be the pointwise order partial_cmp defines',
+    'C09': 'every merge / deferral / validation decision written with `>=`, `<=`, `<`, `>` runs these operators',
+    'C04': 'merge drops or keeps members by `other.clock >= clock`',
+    'C05': 'same for Map entries',
+    'C14': 'Identifier order must be one total order whichever operator is used',
+}, floor=4)
+def cmp_provided(ctx):
+    """Hand-written PartialOrd / Ord impls of crate types define the order in ONE place (partial_cmp / cmp): a provided
+    operator (lt, le, gt, ge, max, min, clamp) that is overridden must be evaluable from that one place and agree with it."""
+    facts = ctx.facts
+    want = {'lt': {LT}, 'le': {LT, EQ}, 'gt': {GT}, 'ge': {GT, EQ}}
+    for im in facts.impls:
+        tr = (im.get('trait') or '').split('::')[-1]
+        if im.get('is_trait_def') or im.get('derived') or tr not in ('PartialOrd', 'Ord') or not str(im.get('self_key', '')).startswith('crdts::'):
+            continue
+        short = im['self_key'].replace('crdts::', '')
+        names = [m.split('::')[-1] for m in im['methods']]
+        extra = [n for n in names if n not in ('partial_cmp', 'cmp')]
+        inst = '%s/%s' % (short, tr)
+        if not extra:
+            ctx.ok(inst, None, 'only %s is defined; the operators are the provided ones' % ('partial_cmp' if tr == 'PartialOrd' else 'cmp'),
+                   fnkey=im['self_key'], nontrivial=False)
+            continue
+        for n in extra:
+            b = facts.by_uid.get([m for m in im['methods'] if m.endswith('::' + n)][0])
+            if b is None or n not in want:
+                ctx.fail(inst + '/' + n, b, 'the provided method `%s` is overridden and cannot be related to the order' % n, fnkey=im['self_key'])
+                continue
+            b = facts._v(b)
+            ctx.analysed.add(b.key)
+
+            def classify(a, b_, t):
+                if t[0] == 'call' and cinfo(t[1])['name'] in ('partial_cmp', 'cmp'):
+                    va, vb = versionless(a), versionless(b_)
+                    if (va, vb) == (('param', 1), ('param', 2)):
+                        return ('pc', 'fwd')
+                    if (va, vb) == (('param', 2), ('param', 1)):
+                        return ('pc', 'rev')
+                return None
+            dom = PARTIAL if tr == 'PartialOrd' else TOTAL
+            truth = {o: closure_value(facts, b, classify=classify, assumption={'pc': o}) for o in dom}
+            ok = all(truth[o] is (o in want[n]) for o in dom)
+            if not ok and im['self_key'] == VCLOCK and n in ('ge', 'le'):
+                # VClock: `a >= b` may also be computed as the pointwise dominance scan itself
+                from .vclock import scan_kind
+
+                def satom(t):
+                    k_ = scan_kind(facts, t)
+                    return k_
+                tb = {}
+                for ge_ in (True, False):
+                    for le_ in (True, False):
+                        tb[(ge_, le_)] = closure_value(facts, b, bool_atom=satom, assumption={'ge': ge_, 'le': le_})
+                ok = all(v is (k[0] if n == 'ge' else k[1]) for k, v in tb.items())
+                truth = {str(k): v for k, v in tb.items()}
+            ctx.check(ok, inst + '/' + n, b, '`%s` agrees with the order' % n,
+                      '`%s` is overridden with its own computation (%s): `a %s b` no longer is what partial_cmp says, and every decision '
+                      'written with that operator changes with it' % (n, {k: v for k, v in truth.items()}, {'lt': '<', 'le': '<=', 'gt': '>', 'ge': '>='}[n]),
+                      fnkey=im['self_key'])
